@@ -9,17 +9,24 @@ EXTENDS NfsSpec, Json, IOUtils
 TraceFile == IF "TRACE" \in DOMAIN IOEnv THEN IOEnv.TRACE ELSE "trace.ndjson"
 Trace == ndJsonDeserialize(TraceFile)
 
-VARIABLES l, s, bad, seg
-vars == <<l, s, bad, seg>>
+VARIABLES l, s, bad, seg, ctx
+vars == <<l, s, bad, seg, ctx>>
+
+(* ctx: what happened earlier in this segment; a rejection is also attributed to  *)
+(* the properties that speak about "everything observable afterwards".            *)
+CtxRules == (IF "failed" \in ctx THEN <<"C09:after-failed-operation">> ELSE <<>>)
+            \o (IF "restart" \in ctx THEN <<"C10:after-restart">> ELSE <<>>)
 
 Dummy == InitState("", TRUE)
 
-TInit == l = 1 /\ s = Dummy /\ bad = TRUE /\ seg = 0
+TInit == l = 1 /\ s = Dummy /\ bad = TRUE /\ seg = 0 /\ ctx = {}
 
 Report(line, rules, e) ==
-  PrintT("VIOL " \o ToJson([line |-> line, seg |-> seg, rules |-> rules,
+  PrintT("VIOL " \o ToJson([line |-> line, seg |-> seg, rules |-> rules \o CtxRules,
                             ev |-> e.ev, proc |-> IF "proc" \in DOMAIN e THEN e.proc ELSE "",
-                            i |-> IF "i" \in DOMAIN e THEN e.i ELSE -1]))
+                            i |-> IF "i" \in DOMAIN e THEN e.i ELSE -1,
+                            want |-> IF e.ev = "call" /\ e.proc = "READ" /\ ObjOf(s, e.fh) # 0 /\ ~e.offsat
+                                     THEN RRead(s.objs[ObjOf(s, e.fh)].data, e.off, e.cnt) ELSE <<>>]))
 
 (* recovery: the state becomes one of the candidates, bound by the dump *)
 Recover(e, extra) ==
@@ -35,8 +42,10 @@ Consume ==
   /\ l' = l + 1
   /\ LET e == Trace[l] IN
      IF e.ev = "reset"
-     THEN /\ s' = InitState(e.root, e.unstable) /\ bad' = FALSE /\ seg' = e.seg
+     THEN /\ s' = InitState(e.root, e.unstable) /\ bad' = FALSE /\ seg' = e.seg /\ ctx' = {}
      ELSE /\ seg' = seg
+          /\ ctx' = IF e.ev = "call" /\ e.st # "OK" /\ Mutating(e) THEN ctx \cup {"failed"}
+                    ELSE IF e.ev = "restart" THEN ctx \cup {"restart"} ELSE ctx
           /\ IF bad THEN UNCHANGED <<s, bad>>
              ELSE CASE e.ev = "call" ->
                          LET v == Check(s, e) IN
@@ -47,7 +56,7 @@ Consume ==
                          IF v = <<>> THEN UNCHANGED <<s, bad>>
                          ELSE Report(l, <<"C02,C09,C10:state-differs-from-reference">> \o v, e) /\ bad' = TRUE /\ s' = s
                     [] e.ev = "restart" -> Recover(e, <<>>)
-                    [] e.ev = "fatal" -> Report(l, <<"C11:server-died">>, e) /\ bad' = TRUE /\ s' = s
+                    [] e.ev = "fatal" -> Report(l, <<"ALL,C11:server-died">>, e) /\ bad' = TRUE /\ s' = s
                     [] OTHER -> UNCHANGED <<s, bad>>
 
 Done == l = Len(Trace) + 1 /\ UNCHANGED vars
